@@ -261,8 +261,14 @@ func (x *Exec) solveOne(o *Oblig, prelude string, cfg solveCfg) {
 		}
 		cancel()
 	} else {
-		for _, s := range ss {
-			r, out, ms := runSolver(s, q, cfg.timeoutS)
+		for i, s := range ss {
+			t := cfg.timeoutS
+			if i == 2 {
+				t = 10 // cvc5: cross-check only; its timeouts are neutral
+			} else if i == 1 && o.Status == "proved" {
+				t = cfg.timeoutS / 3
+			}
+			r, out, ms := runSolver(solvers(t)[i], q, t)
 			o.Ms += ms
 			outs = append(outs, s.name+": "+strings.TrimSpace(out))
 			if r == "unsat" {
